@@ -1,4 +1,5 @@
 import LinfaSpec.Proofs.Pca
+import LinfaSpec.Proofs.PcaKyFan
 import Mathlib.Tactic.FinCases
 import Mathlib.Tactic.NormNum
 
@@ -15,7 +16,7 @@ whitening on and off.  Not proved: that the certificate's eigenvalues are the *l
 (oracle only), and nothing about IEEE rounding.
 -/
 namespace LinfaSpec.Props.C18
-open LinfaSpec.Pca LinfaSpec.PcaMatrix Matrix
+open LinfaSpec.Pca LinfaSpec.PcaMatrix LinfaSpec.PcaKyFan Matrix
 
 /-- only for the `example`s below (`sqrt` is not used by them) -/
 @[reducible] private def ratTransc : Transc Rat := ⟨fun x => x, fun x => x, fun x => x⟩
@@ -28,9 +29,9 @@ error kinds in the order of the code -/
 theorem fit_error_of_bad_input {α ε : Type} [Add α] [Sub α] [Mul α] [Div α] [LT α] [DecidableLT α]
     [OfNat α 0] [OfNat α 1] [NatCast α] [Transc α] (fl : α)
     (svd : List (List α) → Nat → Except ε (List α × List (List α))) (k p : Nat) (w : Bool)
-    (X : List (List α)) :
-    (X.length = 0 → fit fl svd k w p X = .error .notEnoughSamples) ∧
-    (X.length ≠ 0 → (k = 0 ∨ p < k) → fit fl svd k w p X = .error (.embeddingTooSmall k)) := by
+    (lay : Layout) (X : List (List α)) :
+    (X.length = 0 → fit fl svd k w lay p X = .error .notEnoughSamples) ∧
+    (X.length ≠ 0 → (k = 0 ∨ p < k) → fit fl svd k w lay p X = .error (.embeddingTooSmall k)) := by
   constructor
   · intro h; simp [fit, Pca.guard, h]
   · intro h hk
@@ -42,12 +43,12 @@ output with floored singular values, the optional whitening scale, the column me
 theorem fit_ok_iff {α ε : Type} [Add α] [Sub α] [Mul α] [Div α] [LT α] [DecidableLT α]
     [OfNat α 0] [OfNat α 1] [NatCast α] [Transc α] (fl : α)
     (svd : List (List α) → Nat → Except ε (List α × List (List α))) (k p : Nat) (w : Bool)
-    (X : List (List α)) (m : Model α) :
-    fit fl svd k w p X = .ok m ↔
+    (lay : Layout) (X : List (List α)) (m : Model α) :
+    fit fl svd k w lay p X = .ok m ↔
       (0 < X.length ∧ 1 ≤ k ∧ k ≤ p) ∧
-      ∃ σ0 vt, svd (center X (colMean p X)) k = .ok (σ0, vt) ∧
+      ∃ σ0 vt, svd (center X (colMeanL lay p X)) k = .ok (σ0, vt) ∧
         m = { embedding := if w then whiten X.length vt (floorSigma fl σ0) else vt,
-              sigma := floorSigma fl σ0, mean := colMean p X, nSamples := X.length } := by
+              sigma := floorSigma fl σ0, mean := colMeanL lay p X, nSamples := X.length } := by
   unfold fit Pca.guard
   by_cases h0 : X.length = 0
   · simp [h0]
@@ -58,7 +59,7 @@ theorem fit_ok_iff {α ε : Type} [Add α] [Sub α] [Mul α] [Div α] [LT α] [D
       · rintro ⟨⟨_, h1, h2⟩, _⟩; omega
     · simp only [h0, hk, if_false]
       have hv : 0 < X.length ∧ 1 ≤ k ∧ k ≤ p := by omega
-      cases hs : svd (center X (colMean p X)) k with
+      cases hs : svd (center X (colMeanL lay p X)) k with
       | error e => simp
       | ok r =>
         obtain ⟨σ0, vt⟩ := r
@@ -67,10 +68,51 @@ theorem fit_ok_iff {α ε : Type} [Add α] [Sub α] [Mul α] [Div α] [LT α] [D
         · intro h; exact ⟨σ0, vt, rfl, h.symm⟩
         · rintro ⟨a, b, hab, rfl⟩; cases hab; rfl
 
-example : fit (α := Rat) (ε := String) 0 (fun _ _ => .ok ([2, 1], [[1, 0], [0, 1]])) 3 false 2
+example : fit (α := Rat) (ε := String) 0 (fun _ _ => .ok ([2, 1], [[1, 0], [0, 1]])) 3 false .c 2
     [[1, 0], [-1, 0]] = Except.error (.embeddingTooSmall 3) := by simp [fit, Pca.guard]
-example : fit (α := Rat) (ε := String) 0 (fun _ _ => .ok ([2, 1], [[1, 0], [0, 1]])) 1 false 2
+example : fit (α := Rat) (ε := String) 0 (fun _ _ => .ok ([2, 1], [[1, 0], [0, 1]])) 1 false .f 2
     [] = Except.error .notEnoughSamples := by simp [fit, Pca.guard]
+
+/-- the stored mean is the column mean whatever the memory layout of the records (the layouts
+differ only in the order of the additions): entry `j` is `(Σ_i X_i[j]) / n` -/
+theorem fit_mean_is_column_mean {α : Type} [Field α] (lay : Layout) (X : List (List α)) (n p : Nat)
+    (hX : Shape X n p) :
+    (colMeanL lay p X).length = p ∧
+    ∀ j : Fin p, (colMeanL lay p X).getD j 0 = (∑ i : Fin n, (X.getD i []).getD j 0) / (n : α) := by
+  rw [colMeanL_eq_colMean lay X n p hX]
+  exact colMean_spec X n p hX
+
+example : colMeanL (α := Rat) .f 2 [[1, 0], [3, 2]] = [2, 1] := by
+  norm_num [colMeanL, ndSum, unrolled8, column, List.range, List.range.loop]
+
+/-! ## the decomposition step `leading_svd`: dense below `5k`, leading pairs kept -/
+
+/-- `leading_svd` asks the dense solver for all `min(n, p)` pairs exactly when `min(n, p) < 5k` and
+keeps the leading `min(k, ·)` singular values and rows — at most `k`, the same number of each, in
+the solver's (non-increasing) order; otherwise it is the LOBPCG call for `k` pairs, unchanged. -/
+theorem leadingSvd_spec {α ε : Type} [LE α]
+    (dense iter : List (List α) → Nat → Except ε (List α × List (List α))) (p : Nat)
+    (x : List (List α)) (k : Nat) :
+    (min x.length p < 5 * k → ∀ σ vt, dense x (min x.length p) = .ok (σ, vt) →
+      leadingSvd dense iter p x k = .ok (σ.take (min k σ.length), vt.take (min k σ.length)) ∧
+      (σ.take (min k σ.length)).length ≤ k ∧
+      (vt.length = σ.length → (vt.take (min k σ.length)).length = (σ.take (min k σ.length)).length) ∧
+      (σ.Pairwise (· ≥ ·) → (σ.take (min k σ.length)).Pairwise (· ≥ ·))) ∧
+    (min x.length p < 5 * k → ∀ e, dense x (min x.length p) = .error e →
+      leadingSvd dense iter p x k = .error e) ∧
+    (¬ min x.length p < 5 * k → leadingSvd dense iter p x k = iter x k) := by
+  refine ⟨?_, ?_, ?_⟩
+  · intro h σ vt hd
+    refine ⟨by simp [leadingSvd, h, hd], by simp, ?_, ?_⟩
+    · intro hl; simp [hl]
+    · intro hp; exact hp.sublist (List.take_sublist _ _)
+  · intro h e hd; simp [leadingSvd, h, hd]
+  · intro h; simp [leadingSvd, h]
+
+example : leadingSvd (α := Rat) (ε := String) (fun _ _ => .ok ([3, 2, 1], [[1, 0, 0], [0, 1, 0], [0, 0, 1]]))
+    (fun _ _ => .error "lobpcg") 3 [[1, 0, 0], [0, 1, 0], [0, 0, 1], [1, 1, 1]] 2
+    = .ok ([3, 2], [[1, 0, 0], [0, 1, 0]]) := by
+  simp [leadingSvd]
 
 /-! ## singular values: floor and order -/
 
@@ -97,6 +139,53 @@ theorem floorSigma_spec {α : Type} [Field α] [LinearOrder α] [IsStrictOrdered
 
 example : floorSigma (1/100 : Rat) [3, 1, 0] = [3, 1, 1/100] := by
   norm_num [floorSigma]
+
+/-! ## `fit` through `leading_svd`: component count, floor, order -/
+
+/-- **what `fit` returns through `leading_svd` in the dense regime** (`min(n,p) < 5k`): at most `k`
+components, as many rows as singular values, every singular value at least the floor, and — when the
+solver lists its values largest first — non-increasing singular values. -/
+theorem fit_dense_components {α ε : Type} [Field α] [LinearOrder α] [IsStrictOrderedRing α]
+    [Transc α] (fl : α) (dense iter : List (List α) → Nat → Except ε (List α × List (List α)))
+    (k p : Nat) (w : Bool) (lay : Layout) (X : List (List α)) (m : Model α)
+    (hreg : min X.length p < 5 * k)
+    (hfit : fit fl (leadingSvd dense iter p) k w lay p X = .ok m) :
+    ∃ σ vt, dense (center X (colMeanL lay p X)) (min X.length p) = .ok (σ, vt) ∧
+      m.sigma.length ≤ k ∧
+      (vt.length = σ.length → m.embedding.length = m.sigma.length) ∧
+      (∀ s ∈ m.sigma, fl ≤ s) ∧
+      (σ.Pairwise (· ≥ ·) → m.sigma.Pairwise (· ≥ ·)) := by
+  unfold fit at hfit
+  split at hfit
+  · cases hfit
+  · have hlen : (center X (colMeanL lay p X)).length = X.length := by simp [center]
+    simp only [] at hfit
+    cases hd : dense (center X (colMeanL lay p X)) (min X.length p) with
+    | error e =>
+      have := (leadingSvd_spec dense iter p (center X (colMeanL lay p X)) k).2.1
+        (by rw [hlen]; exact hreg) e (by rw [hlen]; exact hd)
+      rw [this] at hfit
+      cases hfit
+    | ok r =>
+      obtain ⟨σ, vt⟩ := r
+      obtain ⟨h1, h2, h3, h4⟩ := (leadingSvd_spec dense iter p (center X (colMeanL lay p X)) k).1
+        (by rw [hlen]; exact hreg) σ vt (by rw [hlen]; exact hd)
+      rw [h1] at hfit
+      simp only [Except.ok.injEq] at hfit
+      subst hfit
+      refine ⟨σ, vt, rfl, ?_, ?_, ?_, ?_⟩
+      · simp [floorSigma]
+      · intro hl
+        have := h3 hl
+        simp only [List.length_take] at this
+        cases w <;> simp [floorSigma, whiten, this]
+      · exact (floorSigma_spec fl _).1
+      · intro hp; exact (floorSigma_spec fl _).2 (h4 hp)
+
+example : (fit (α := Rat) (ε := String) 0
+      (leadingSvd (fun _ _ => .ok ([3, 2], [[1, 0], [0, 1]])) (fun _ _ => .error "lobpcg") 2)
+      1 false .c 2 [[1, 0], [-1, 0], [0, 1]]).toOption.map (·.sigma) = some [3] := by
+  simp [fit, Pca.guard, leadingSvd, floorSigma, Except.toOption]
 
 /-! ## explained variance and its ratio -/
 
@@ -267,5 +356,114 @@ example : let X : Matrix (Fin 4) (Fin 2) Rat := toM [[1, 0], [-1, 0], [0, 1], [0
   ext i j
   fin_cases i <;> fin_cases j <;>
     simp [X, toM, Matrix.mul_apply, Fin.sum_univ_four, Matrix.diagonal, Matrix.one_apply] <;> norm_num
+
+/-! ## the projected training data is centred; optimality (Ky Fan); leading rows; calling forms -/
+
+/-- **the projected training data is centred** (so the scatter `ZᵀZ` used above is `(n-1)` times its
+sample covariance): the mean `fit` stores is the column mean in every layout, hence every coordinate
+of `predict(X)` sums to zero over the training rows. -/
+theorem projected_training_data_centred {α : Type} [Field α] (m : Model α) (lay : Layout)
+    (X : List (List α)) (n k p : Nat) (hX : Shape X n p) (hW : Shape m.embedding k p)
+    (hmean : m.mean = colMeanL lay p X) (hn : (n : α) ≠ 0) (j : Fin k) :
+    ∑ i : Fin n, toM (transform m X) n k i j = 0 := by
+  rw [colMeanL_eq_colMean lay X n p hX] at hmean
+  exact transform_colsum_zero m X n k p hX hW hmean hn j
+
+example : transform (⟨[[1, 0]], [2], colMeanL .c 2 [[1, 0], [3, 2]], 2⟩ : Model Rat) [[1, 0], [3, 2]]
+    = [[-1], [1]] := by
+  norm_num [transform, colMeanL, colMean, vadd, vsub, dotS, sumS, List.zipWith, List.replicate,
+    List.foldl]
+
+/-- **no `k`-dimensional orthogonal projection retains more variance.**  `S = XcᵀXc` is the scatter of
+the centred training data with a full eigen-decomposition `S = Uᵀ diag(lam) U` (`U` orthogonal, `lam`
+non-increasing); the fitted components `W` (un-whitened) carry the certificate `W Wᵀ = 1`,
+`S Wᵀ = Wᵀ diag(σ²)` and their `σ_i²` are the `k` LEADING eigenvalues.  Then for every `Q` with `k`
+orthonormal rows the scatter retained by projecting on `Q` is at most the scatter of
+`predict(X)`: `tr((Xc Qᵀ)ᵀ(Xc Qᵀ)) ≤ tr(ZᵀZ)` (divide by `n-1` for variances). -/
+theorem no_projection_retains_more {α : Type} [Field α] [LinearOrder α] [IsStrictOrderedRing α]
+    (m : Model α) (X : List (List α)) (n k p : Nat) (hX : Shape X n p)
+    (hW : Shape m.embedding k p) (hμ : m.mean.length = p) (hk : k ≤ p)
+    (U : Matrix (Fin p) (Fin p) α) (lam : Fin p → α) (hU : U * Uᵀ = 1)
+    (hS : (toM X n p - rowConst n (toV m.mean p))ᵀ * (toM X n p - rowConst n (toV m.mean p))
+          = Uᵀ * diagonal lam * U)
+    (hmono : ∀ i j : Fin p, i ≤ j → lam j ≤ lam i)
+    (hlead : ∀ i : Fin k, m.sigma.getD i 0 * m.sigma.getD i 0 = lam (Fin.castLE hk i))
+    (hV : toM m.embedding k p * (toM m.embedding k p)ᵀ = 1)
+    (hc : ((toM X n p - rowConst n (toV m.mean p))ᵀ * (toM X n p - rowConst n (toV m.mean p)))
+            * (toM m.embedding k p)ᵀ
+          = (toM m.embedding k p)ᵀ * diagonal fun i : Fin k => m.sigma.getD i 0 * m.sigma.getD i 0)
+    (Q : Matrix (Fin k) (Fin p) α) (hQ : Q * Qᵀ = 1) :
+    trace (((toM X n p - rowConst n (toV m.mean p)) * Qᵀ)ᵀ
+            * ((toM X n p - rowConst n (toV m.mean p)) * Qᵀ))
+      ≤ trace ((toM (transform m X) n k)ᵀ * toM (transform m X) n k) := by
+  rw [transform_toM m X n k p hX hW hμ]
+  unfold transformM
+  rw [projected_scatter_diag _ _ _ hV hc, Matrix.trace_diagonal]
+  have e : ((toM X n p - rowConst n (toV m.mean p)) * Qᵀ)ᵀ
+        * ((toM X n p - rowConst n (toV m.mean p)) * Qᵀ)
+      = Q * ((toM X n p - rowConst n (toV m.mean p))ᵀ
+          * (toM X n p - rowConst n (toV m.mean p))) * Qᵀ := by
+    rw [Matrix.transpose_mul, Matrix.transpose_transpose]
+    simp only [Matrix.mul_assoc]
+  rw [e]
+  calc trace (Q * _ * Qᵀ) ≤ ∑ i : Fin k, lam (Fin.castLE hk i) :=
+        ky_fan _ U lam hU hS hmono hk Q hQ
+    _ = ∑ i : Fin k, m.sigma.getD i 0 * m.sigma.getD i 0 :=
+        Finset.sum_congr rfl fun i _ => (hlead i).symm
+
+/-- non-vacuity: `S = diag(2, 1)` with `U = 1`, the leading axis `W = (1 0)` against `Q = (0 1)` -/
+example : (1 : Matrix (Fin 2) (Fin 2) Rat) * (1 : Matrix (Fin 2) (Fin 2) Rat)ᵀ = 1 ∧
+    (!![1, 0] : Matrix (Fin 1) (Fin 2) Rat) * (!![1, 0] : Matrix (Fin 1) (Fin 2) Rat)ᵀ = 1 ∧
+    (!![0, 1] : Matrix (Fin 1) (Fin 2) Rat) * (!![0, 1] : Matrix (Fin 1) (Fin 2) Rat)ᵀ = 1 := by
+  refine ⟨by simp, ?_, ?_⟩ <;>
+    (ext i j; fin_cases i; fin_cases j; simp [Matrix.mul_apply, Fin.sum_univ_two])
+
+/-- **the leading rows of a certificate are a certificate** (what the dense branch of `leading_svd`
+keeps): if `V` (`r` orthonormal rows) satisfies `C Vᵀ = Vᵀ diag(s)` then so do its first `k` rows
+with the first `k` values. -/
+theorem leading_rows_certificate {α : Type} [Field α] {r k p : Nat} (h : k ≤ r)
+    (C : Matrix (Fin p) (Fin p) α) (V : Matrix (Fin r) (Fin p) α) (s : Fin r → α)
+    (hV : V * Vᵀ = 1) (hc : C * Vᵀ = Vᵀ * diagonal s) :
+    (V.submatrix (Fin.castLE h) id) * (V.submatrix (Fin.castLE h) id)ᵀ = 1 ∧
+    C * (V.submatrix (Fin.castLE h) id)ᵀ
+      = (V.submatrix (Fin.castLE h) id)ᵀ * diagonal fun i : Fin k => s (Fin.castLE h i) := by
+  constructor
+  · ext i j
+    have := congrFun (congrFun hV (Fin.castLE h i)) (Fin.castLE h j)
+    simp only [Matrix.mul_apply, Matrix.transpose_apply, Matrix.submatrix_apply, id] at this ⊢
+    rw [this, Matrix.one_apply, Matrix.one_apply]
+    simp [Fin.ext_iff]
+  · ext a i
+    have := congrFun (congrFun hc a) (Fin.castLE h i)
+    rw [Matrix.mul_diagonal] at this
+    rw [Matrix.mul_diagonal]
+    simpa [Matrix.mul_apply] using this
+
+/-- the rows the dense branch keeps, as a matrix: the list `vt.take k` is the sub-matrix of the
+first `k` rows of `vt` -/
+theorem take_rows_toM {α : Type} [Field α] (vt : List (List α)) (r k p : Nat) (h : k ≤ r) :
+    toM (vt.take k) k p = (toM vt r p).submatrix (Fin.castLE h) id := by
+  ext i j
+  simp only [toM, Matrix.of_apply, Matrix.submatrix_apply, id, Fin.val_castLE]
+  congr 1
+  simp [List.getD_eq_getElem?_getD, i.2]
+
+example : toM (α := Rat) ([[1, 0], [0, 1]].take 1) 1 2
+    = (toM (α := Rat) [[1, 0], [0, 1]] 2 2).submatrix (Fin.castLE (by decide : 1 ≤ 2)) id :=
+  take_rows_toM _ 2 1 2 (by decide)
+
+/-- **calling forms**: `Transformer::transform(dataset)` projects the records and moves targets and
+weights unchanged; `Predict::predict(dataset)` keeps the records and returns the same projection as
+targets — both are `predict` (`transform`) of the records, so every theorem above applies to them. -/
+theorem calling_forms_are_transform {α τ ω : Type} [Field α] (m : Model α) (ds : Dataset α τ ω)
+    (noW : ω) :
+    (transformDataset m ds).records = transform m ds.records ∧
+    (transformDataset m ds).targets = ds.targets ∧ (transformDataset m ds).weights = ds.weights ∧
+    (predictDataset m ds noW).targets = transform m ds.records ∧
+    (predictDataset m ds noW).records = ds.records :=
+  ⟨rfl, rfl, rfl, rfl, rfl⟩
+
+example : (transformDataset (⟨[[1, 0]], [2], [0, 0], 2⟩ : Model Rat)
+    (⟨[[3, 4]], [7], [2]⟩ : Dataset Rat (List Nat) (List Nat))).targets = [7] := rfl
 
 end LinfaSpec.Props.C18
